@@ -31,7 +31,13 @@ def run(ctx) -> None:
     g = tlc.run("GenC15", "INIT Init\nNEXT Next\nCHECK_DEADLOCK FALSE\nINVARIANT Emit\n", tag="c15.gen")
     ctx.add_tlc(g, "GenC15 constants of the input family")
     k = next(v for v in g.printed if isinstance(v, dict) and "lexemes" in v)
-    lex = [x.replace("<nul>", "\0") for x in k["lexemes"]]
+    SUB = {"<nul>": "\0", "<eacute>": "\u00e9", "<lambda>": "\u03bb", "<uuml>": "\u00fc", "<nbsp>": "\u00a0", "<emoji>": "\U0001F600"}
+
+    def sub(x):
+        for a, b in SUB.items():
+            x = x.replace(a, b)
+        return x
+    lex = [sub(x) for x in k["lexemes"]]
     L = k["quick"] if ctx.quick else k["thorough"]
     ctx.rule = (f"inputs = every sequence of <= {L} of {len(lex)} lexemes (joined with and without a space) + random longer "
                 "sequences + every truncation / line deletion / line duplication of valid programs; non-trivial = distinct inputs "
@@ -57,6 +63,10 @@ def run(ctx) -> None:
         texts = keep + rest[: len(rest) // 3]
     for _ in range(2000 if ctx.quick else 30000):
         texts.append((" " if rnd.random() < 0.7 else "").join(rnd.choice(lex) for _ in range(rnd.randint(5, 40))))
+    # byte soup: random characters incl. control and non-ASCII ones
+    soup = "abz_AZ09 \t\n.,:;'#()[]{}<>=+-*/&|~!@$%^\\\"\0\x01\x7f\u00e9\u00df\u03bb\u4e2d\U0001F600"
+    for _ in range(3000 if ctx.quick else 40000):
+        texts.append("".join(rnd.choice(soup) for _ in range(rnd.randint(1, 30))))
     bases = [apr.render(apr.gen_program(ctx.seed * 31 + j, size=10))[0] for j in range(6 if ctx.quick else 40)]
     for name in ("tests/samples/sample.s", "tests/samples/push_pull.s"):
         try:
